@@ -15,7 +15,7 @@ From MZ.model Require Import DeflateCore.
 From MZ.lib Require Import Arr.
 From MZ.model Require InflateCore.
 From MZ.model Require InflateStream.
-From MZ.proofs Require Import DeflateFlags StoredSpec StoredRoundtrip StoredEndToEnd StoredEndToEndZ StoredApiRoundtrip.
+From MZ.proofs Require Import DeflateFlags StoredSpec StoredRoundtrip StoredEndToEnd StoredEndToEndZ StoredApiRoundtrip StoredTotal.
 Import ListNotations.
 Local Open Scope Z_scope.
 
@@ -127,3 +127,19 @@ Example C01_api_roundtrip_runs :
   | _ => False
   end.
 Proof. vm_compute. reflexivity. Qed.
+
+(* ... and the "never panics" clause at level 0: for EVERY input the compressor model's compress_to_vec_inner never
+   yields a Panic value (the debug-profile overflow / bounds / assertion sites of the bit writer, flush_block,
+   the stored engine and compress_inner are all shown unreachable: flush_block is an equation, the guards of
+   the engine follow from its invariant plus "bytes of the open block <= dictionary size"), never reaches the
+   panic!("Bug! Unexpectedly failed to compress!") of the grow-and-retry loop, and never leaves the modelled
+   fragment: it returns exactly the stored-block vector - unless the model's own fuel (2^40 loop turns) runs out *)
+Theorem C01_level0_compress_never_panics_partial :
+  forall (data : list N) (flags : N),
+  hasf flags FLAG_RAW = true ->
+  match compress_to_vec_inner data flags with
+  | Ret (VBytes out) => out = StoredModel.FULL data flags 15
+  | OutOfFuel => True
+  | _ => False
+  end.
+Proof. exact compress_to_vec_level0_never_panics. Qed.
